@@ -154,7 +154,21 @@ def internal_state():
     if isinstance(v, config_parser.ImportStatement):
       return ('imp', v.module, v.is_from, v.alias)
     return ('obj', type(v).__name__, getattr(v, '__name__', None))
+  # every other module-level store (caches, memo tables, counters -- whatever they are called): two states that differ
+  # only there may still have different futures, so they are not merged
+  named = {'_CONFIG', '_CONFIG_PROVENANCE', '_OPERATIVE_CONFIG', '_IMPORTS', '_SINGLETONS', '_CONSTANTS', '_REGISTRY',
+           '_FINALIZE_HOOKS', '_PARSE_CONTEXTS', '_INTERACTIVE_MODE'}
+  other = []
+  for k, rec in sorted((_SNAP or {}).items()):
+    if k in named:
+      continue
+    v = vars(cfg).get(k)
+    if rec[0] == 'bool':
+      other.append((k, canon(v) if isinstance(v, (str, int, float, bool, bytes, type(None))) else ('obj', type(v).__name__)))
+    elif rec[0] in ('dict', 'list', 'set') and isinstance(v, (dict, list, set)):
+      other.append((k, canon(v)))
   return (
+      tuple(other),
       canon(cfg._CONFIG), canon(cfg._CONFIG_PROVENANCE), canon(cfg._OPERATIVE_CONFIG),
       canon(cfg._IMPORTS), gin.config_is_locked(), getattr(cfg, '_INTERACTIVE_MODE', None),
       canon(sorted(cfg._SINGLETONS)), canon(sorted(cfg._CONSTANTS._selector_map)),
